@@ -330,7 +330,10 @@ pub fn preprocess_str<T: AsRef<Path>, U: AsRef<Path>, V: BuildHasher>(
             NodeEvent::Enter(RefNode::SourceDescriptionNotDirective(x)) => {
                 let locate: Locate = x.try_into().unwrap();
                 if let Some(last_include_line) = last_include_line {
-                    if last_include_line == locate.line {
+                    // Only what stands on the `include line itself counts; the rest of a
+                    // comment's line is white space that starts a run there.
+                    let first_line = locate.str(s).split('\n').next().unwrap_or("");
+                    if last_include_line == locate.line && !first_line.trim().is_empty() {
                         return Err(Error::IncludeLine);
                     }
                 }
